@@ -134,8 +134,8 @@ def outcome_class(o):
 def main(ck):
     tree = cy.Tree('C21')
     rng = ck.rng('flow')
-    nfuncs = ck.pick(128, 3000)
-    per_mod = ck.pick(16, 100)
+    nfuncs = ck.pick(128, 640)
+    per_mod = ck.pick(16, 40)
     mods = {}
     fmap = {}
     stats = {'calls': 0, 'calls_raising_nameerror': 0, 'reads': 0, 'unbound_reads': 0}
